@@ -85,8 +85,9 @@ fn lint_by_val_arg(
     arg_pos: &ExpressionPos,
     param_type: &ResolvedParamType,
 ) -> Result<(), LintErrorPos> {
-    // it's by val, casting is allowed
-    if arg_pos.expression_type().can_cast_to(param_type) {
+    // it's by val, casting is allowed, but an array cannot be passed by value, e.g. `S (A())`
+    let arg_type = arg_pos.expression_type();
+    if !matches!(arg_type, ExpressionType::Array(_)) && arg_type.can_cast_to(param_type) {
         Ok(())
     } else {
         Err(LintError::ArgumentTypeMismatch.at(arg_pos))
